@@ -39,9 +39,9 @@ ANCHORS = ['Binary8Format.float_to_int8', 'MXFPFormat.float_to_int',
            'Bits._getbfloatbe', 'Bits._getbfloatle',
            'scaled_get_fn.<locals>.wrapper', 'scaled_set_fn.<locals>.wrapper', 'scaled_read_fn.<locals>.wrapper']
 ENC_ROUTES = ['kw', 'prop', 'token', 'build', 'build2', 'pack', 'packkw', 'array', 'array-set', 'array-append', 'kw-after-mutated']
-DEC_ROUTES = ['prop', 'read', 'readlist', 'unpack', 'parse', 'array', 'array-item', 'array-pp']
+DEC_ROUTES = ['prop', 'read', 'readlist', 'unpack', 'parse', 'array', 'array-item', 'array-pp', 'array-big']
 S_ENC_ROUTES = ['build', 'array', 'array-set', 'array-append']
-S_DEC_ROUTES = ['parse', 'read', 'readlist', 'unpack', 'array', 'array-item', 'array-pp']
+S_DEC_ROUTES = ['parse', 'read', 'readlist', 'unpack', 'array', 'array-item', 'array-pp', 'array-big']
 REQUIRED_OPS = (['encode:' + r for r in ENC_ROUTES] + ['decode:' + r for r in DEC_ROUTES] +
                 ['scaled-encode:' + r for r in S_ENC_ROUTES] + ['scaled-decode:' + r for r in S_DEC_ROUTES] +
                 ['roundtrip'])
@@ -168,6 +168,15 @@ def lib_decode(route, clsname, fmt, nm, codes):
         if route == 'array-item':
             a = Array(nm, whole())
             return [a[i] if i % 2 else a[i - k] for i in range(k)]
+        if route == 'array-big':
+            # more than a thousand items (where a bulk decoding path could take over): the codes repeated, every repeat decoded alike
+            reps = 1100 // k + 1
+            out = Array(nm, whole() * reps).tolist()
+            first = out[:k]
+            for j in range(1, reps):
+                if [repr(x) for x in out[j * k:(j + 1) * k]] != [repr(x) for x in first]:
+                    raise AssertionError('repeat %d decoded differently' % j)
+            return first
         if route == 'array-pp':
             # what the pretty-printer shows for the items (its own dtype, no fmt argument): the numbers between the header line and ']'
             import io
